@@ -1,5 +1,5 @@
 """Which rules and witnesses decide which property."""
-from . import shared_state, surface
+from . import shared_state, surface, entry
 
 RULES = {
     "R-NOCELL": shared_state.r_nocell,
@@ -10,6 +10,9 @@ RULES = {
     "R-IMMUTSIG": shared_state.r_immutsig,
     "R-NONDET": shared_state.r_nondet,
     "R-SURFACE": surface.r_surface,
+    "R-ENTRY": entry.r_entry,
+    "R-HELPER": entry.r_helper,
+    "R-ERRSINK": entry.r_errsink,
 }
 
 PROPS = {
@@ -49,5 +52,21 @@ PROPS = {
         "decides": "source compatibility of the 6.4.1 public surface (names, signatures, bounds, auto traits)",
         "does_not_decide": "behavioural compatibility",
         "assumptions": ["the witness was generated from the pinned 6.4.1 tree and reviewed", "x86_64 only"],
+    },
+    "C09": {
+        "level": "other",
+        "rules": ["R-ENTRY", "R-HELPER", "R-ERRSINK"],
+        "witnesses": [],
+        "explanation": "Decides the negative half of C09 for every transform and call shape: (R-ENTRY) all 3x123 process_* entry points "
+                       "(and the provided process(), which allocates exactly get_inplace_scratch_len()) hand their own buffers, self.len() and the "
+                       "matching scratch getter to the validating helper of their kind; (R-HELPER) each validator can reach Ok only over edges that "
+                       "established scratch>=required, equal data lengths and an empty (or processed) remainder, its loop is guarded by len>=size, "
+                       "splits every buffer at size, advances to the tail and hands the heads plus the trimmed scratch to the chunk function; "
+                       "(R-ERRSINK) every Err reaches the cold panic function of the helper, which asserts every cause. Hence an ill-shaped call "
+                       "panics and a normal return implies every chunk was handed to the kernel. NOT decided: that a well-shaped call never panics "
+                       "(inner scratch arithmetic and internal asserts are relational, C08).",
+        "decides": "ill-shaped => panic; normal return => every chunk visited; loop guard admits every well-shaped length",
+        "does_not_decide": "well-shaped => no panic inside kernels (depends on inner scratch arithmetic)",
+        "assumptions": ["length-0 transforms return early by design (chunk_size == 0) and are outside the statement", "x86_64 non-test code"],
     },
 }
